@@ -256,7 +256,13 @@ func Diff(got, want Agg, o Opts) string {
 				msgs = append(msgs, fmt.Sprintf("%s timer values got %v want %v", k, gv, wv))
 			}
 			d := math.Abs(g.SampledCount - w.SampledCount)
-			if d > o.SampledTol*math.Max(math.Abs(w.SampledCount), 1) && !(math.IsNaN(g.SampledCount) && math.IsNaN(w.SampledCount)) {
+			tol := o.SampledTol
+			if tol == 0 && !o.FloatBits {
+				// a sampled count is a sum of 1/rate terms: the order of the additions (which merge happened first) moves
+				// the last bits (7.666666666666667 vs 7.666666666666668); a lost or doubled datapoint moves it by >= 1
+				tol = 1e-12
+			}
+			if d > tol*math.Max(math.Abs(w.SampledCount), 1) && !(math.IsNaN(g.SampledCount) && math.IsNaN(w.SampledCount)) {
 				msgs = append(msgs, fmt.Sprintf("%s sampled count got %v want %v", k, g.SampledCount, w.SampledCount))
 			}
 		case gostatsd.SET:
